@@ -3,6 +3,8 @@
 # certain rights in this software.
 import numpy
 
+from jaqalpaq.error import JaqalError
+
 from jaqalpaq.core.algorithm.walkers import TraceSerializer
 from jaqalpaq.core.result import ProbabilisticSubcircuit, ReadoutSubcircuit
 from jaqalpaq.emulator.backend import IndependentSubcircuitsBackend
@@ -61,7 +63,10 @@ class UnitarySerializedEmulator(IndependentSubcircuitsBackend):
             argv = []
             # This capture the quantum arguments to the gate --- the qubit index
             qind = []
-            gatedef = gatedefs[gate.name]
+            try:
+                gatedef = gatedefs[gate.name]
+            except KeyError:
+                raise JaqalError(f"No native gate {gate.name} to emulate") from None
             if gatedef.ideal_unitary is None:
                 # maybe add other checks?
                 continue
